@@ -1,16 +1,30 @@
 /-
   PDesy.Lemmas.Removal — helper lemmas for C10, clause 3 ("deleting the project-wide absence
   steps from the result gives the result of the run without absence").
+  Run A = the run with absence list `L`, run B = the run without.
 
   Stage 1  shift invariance: the forward PERT pass started `d` later computes every `est`
            exactly `d` later (`pert_est_shift`, any link kinds); on finish-to-start networks the
            total slack is the same (`pert_slack_shift`); hence the comparison function of
            `sort_task_list` is the *same function* for every rule but FIFO (`taskLe_pert_shift`),
            and the stable sort gives the same list (`sortBy_congr`).
-  Stage 2  one-step lemmas of the simulation relation between the run with absence list `L`
-           (run A) and the run without (run B).
-  Stage 3  the logs: the rows appended at absence steps are the ones `popBy` deletes.
-  Stage 4  the loop.
+  Stage 3  the logs: the row appended at a working step stays (`removeLogs_addRow_keep`), the row
+           appended at an absence step is the one `popBy` deletes (`removeLogs_addRow_drop`).
+  Stage 2  one step.  `setP` / `setT` overwrite the PERT fields / the task states of a live
+           state.  Every phase but `pert` and the task sort commutes with `setP` (`*_setP`,
+           `upd0_setP`); the allocation pass commutes with any modification it cannot see
+           (`ABlind`, `allocate_blind`), in particular with `setP` and, for task states that are
+           *ahead* only on component-free automatic tasks (`Ahead`), with `setT`
+           (`allocate_over`); `check_state(WORKING)` brings the two task-state vectors together
+           (`cw_sim`, `chkWorking_over`).  `LRel` is the relation on live states,
+           `preLive_working` / `stepLive_working` the working step.
+  Stage 4  `Rel` (states at the top of an iteration), `rel_working`, `loop_rel` (the loop, with
+           the absence-step lemma `AbsStepOK` as a hypothesis), `enter_rel`,
+           `removal_of_absStep`.
+
+  Two groups of lemmas depend on `check_state(WORKING)` running at project absence steps (the
+  behaviour of the present `stepBody`): the section "an absence step of run A" and everything from
+  "The absence step in the current model" on (`rel_absence`, `removal_current`).
 -/
 import PDesy.Lemmas.Idem
 import PDesy.Lemmas.Pert
